@@ -190,6 +190,24 @@ CHECKS["C13"] = dict(
          "known finding (overlapping inputs, d<0, no union; vendored ClipperOffset).",
     design="4 C13")
 
+CHECKS["C10"] = dict(
+    level="model_checking",
+    technique="TLA+ spec Hierarchy.tla/Base.tla (exact affine maps on a rational lattice, "
+              "composition, rings up to rotation/orientation); TLC-enumerated operation sequences "
+              "replayed on every element kind; results validated by TLC",
+    text="TLC enumerates sequences of translate/scale/mirror/rotate/transform operations from a "
+         "lattice palette (90/180 degrees and atan(4/3) rotations, 3-4-5 mirror axes, 1/2, 2 and "
+         "negative magnifications, reflections) whose denominators keep every vertex on the grid, "
+         "checks the composition laws, and for each case compares gdstk's outline after the "
+         "operations with the affine image of the outline before, the path bookkeeping (spine, "
+         "half-widths scaled only with scale_width, offsets scaled by |mag| and flipped under "
+         "reflection, RobustPath trafo/width_scale/offset_scale), the transformed repetition "
+         "offsets, and for labels/references the composition of placements.",
+    note="Trusted: TLC, Base.tla; outlines are gdstk's own to_polygons on both sides (the law, not "
+         "the outline, is under test here). Fixed element shapes (one polygon, 2-element paths, "
+         "label, reference); end extensions and non-uniform scale not exercised.",
+    design="4 C10")
+
 NOT_YET = {}
 
 
@@ -222,8 +240,8 @@ def main():
         hooks=dict(guard="GDSTK_VERIF",
                    enable="checks compile /repo's sources with -DGDSTK_VERIF (harness/Makefile); "
                           "no hook exists in the sources so far",
-                   baseline_off_cmd="cmake --build /repo/_build && ctest --test-dir /repo/_build "
-                                    "-j8 --timeout 900",
+                   baseline_off_cmd="cmake --build /repo/_build --target examples && ctest --test-dir "
+                                    "/repo/_build -j8 --timeout 900",
                    source_commits=[], add_only=True),
         engines=[dict(name="tlc", path="/opt/veriftools/tla/tla2tools.jar",
                       serves_properties=sorted(CHECKS),
